@@ -411,8 +411,12 @@ def shard_specs(ctx):
     for lo in range(0, n1, step):
         specs.append(("exh", g1, lo, lo + step, ctx.rng.getrandbits(32)))
     n10 = sum(1 for _ in disjoint_rows(5, 10))
-    for lo in range(0, n10, 400):
-        specs.append(("g10", big, lo, lo + 400, ctx.rng.getrandbits(32)))
+    lo = 0
+    while lo < n10:
+        # thorough: the first 551 configurations (<= 2 rows) are expanded over all chunkings x all windows
+        step10 = 12 if (big and lo < 560) else 400
+        specs.append(("g10", big, lo, lo + step10, ctx.rng.getrandbits(32)))
+        lo += step10
     for _ in range(60 if big else 5):
         specs.append(("rand_small", 1000, ctx.rng.getrandbits(32)))
     for _ in range(60 if big else 5):
